@@ -5,6 +5,7 @@ package cmd
 import (
 	"github.com/hashicorp/consul/internal/verifsim/archiveworld"
 	"github.com/hashicorp/consul/internal/verifsim/fsmworld"
+	"github.com/hashicorp/consul/internal/verifsim/resourceworld"
 	"github.com/hashicorp/consul/internal/verifsim/simkit"
 )
 
@@ -20,5 +21,6 @@ var registry = map[string]simkit.World{
 	"C11": fsmworld.C11{},
 	"C13": fsmworld.C13{},
 	"C15": fsmworld.C15{},
+	"C18": resourceworld.World{},
 	"C20": archiveworld.World{},
 }
